@@ -17,6 +17,7 @@ EXPLANATION = ('R1: no evaluation of call.args[*] can reach the lazy `Function` 
 ASSUMPTIONS = ['host functions that combine `Arguments` with positional extractors, or that use the public FunctionContext fields directly, make their own choice and are outside the claim',
                'inlining bound 0: the dispatch and the evaluation sites are examined inside the evaluator function']
 
+DROP7 = re.compile(r'::(flat_map|filter_map|flatten|filter|rev|skip|take|step_by|cycle|chain|zip)$')
 ALLOWED_EVALUATORS = [
     (r'^cel_interpreter::objects::Value::resolve(_all)?(::\{closure#\d+\})*$', 'the evaluator'),
     (r'^<cel_interpreter::resolvers::\w+ as cel_interpreter::resolvers::Resolver>::resolve$', 'Argument / AllArguments resolvers'),
@@ -144,7 +145,7 @@ def run(fx, rep):
         for bi, t in bb.calls():
             if F.norm_callee(t) in RESOLVE_FNS:
                 n += 1
-                who = [w for rx, w in ALLOWED_EVALUATORS if re.match(rx, bb.path)]
+                who = [w for rx, w in ALLOWED_EVALUATORS if re.match(rx, re.sub(r'(::\{closure#\d+\})+$', '', bb.path))]
                 rep.check(bool(who), 'R4', 'caller/%s' % bb.path, F.loc_of(t['span']), who[0] if who else '',
                           '%s calls %s: a built-in/helper that evaluates expressions itself can evaluate an argument a second time' % (bb.path, F.norm_callee(t)))
     # ---------------- R5
@@ -239,6 +240,16 @@ def check_extractors(fx, rep):
         okk = all(t == ('iter', ('f', ('param', 2), 'args')) for t in ts) and ev[0][0] not in b.reachable_from(b.succ(ev[0][0]), blocked=nxt)
         its = [t for bi, t in b.calls() if F.norm_callee(t) == 'std::iter::Iterator::next']
         okk = okk and len(its) == 1 and 'std::slice::Iter<' in its[0]['arg_tys'][0] and 'Rev' not in its[0]['arg_tys'][0]
+    else:
+        # the same pass written as ctx.args.iter().map(|a| resolve(a)).collect::<Result<_, _>>()
+        cl = [fx.bodies[c] for c in fx.children.get(b.path, [])]
+        maps = [t for bi, t in b.calls() if F.norm_callee(t) == 'std::iter::Iterator::map']
+        if not ev and len(cl) == 1 and len(maps) == 1:
+            cev = [(bi, t) for bi, t in cl[0].calls() if F.norm_callee(t) in RESOLVE_FNS]
+            cpv = F.Prov(cl[0])
+            src = pv.of_operand(maps[0]['args'][0])
+            okk = len(cev) == 1 and all(x == ('param', 2) for x in cpv.of_operand(cev[0][1]['args'][0])) and 'std::slice::Iter<' in maps[0]['arg_tys'][0] and 'Rev' not in maps[0]['arg_tys'][0] and \
+                all(F.term_contains(x, lambda y: y == ('f', ('param', 2), 'args')) for x in src) and not any(DROP7.search(F.norm_callee(t) or '') for bi, t in b.calls())
     rep.check(okk, 'R3', 'AllArguments/walks-args-once-forward', b.loc(), 'one forward pass over ctx.args', 'AllArguments::resolve is not a single forward pass over ctx.args')
     # This::from_context
     thisb = [x for x in fx.bodies.values() if x.raw.get('impl_trait') == 'cel_interpreter::magic::FromContext' and x.raw.get('impl_self', '').startswith('cel_interpreter::magic::This<') and x.raw['kind'] == 'AssocFn']
